@@ -13,6 +13,7 @@ import (
 	"github.com/jdillenkofer/pithos/internal/storage/database/repository/partregistry"
 	"github.com/jdillenkofer/pithos/internal/storage/metadatapart/metadatastore"
 	"github.com/jdillenkofer/pithos/internal/storage/metadatapart/partstore"
+	"github.com/jdillenkofer/pithos/internal/verifhook"
 	"go.opentelemetry.io/otel"
 	"go.opentelemetry.io/otel/trace"
 )
@@ -213,6 +214,7 @@ func (partGC *partGC) runGCWithContext(ctx context.Context) error {
 			return err
 		}
 	}
+	_ = verifhook.Hit("gc.after-reconcile")
 	// Pruning and backfill are idempotent and deliberately isolated from scans.
 	if err := database.WithTx(ctx, partGC.db, &sql.TxOptions{ReadOnly: false}, func(ctx context.Context, tx database.Tx) error {
 		indexed, err := partGC.partDedupIndexRepository.FindAllPartIds(ctx, tx.SqlTx())
@@ -254,6 +256,7 @@ func (partGC *partGC) runGCWithContext(ctx context.Context) error {
 		}); err != nil {
 			return err
 		}
+		_ = verifhook.Hit("gc.after-candidates")
 		for start := 0; start < len(candidates); start += 256 {
 			end := min(start+256, len(candidates))
 			var external []partstore.PartId
@@ -280,6 +283,7 @@ func (partGC *partGC) runGCWithContext(ctx context.Context) error {
 			}); err != nil {
 				return err
 			}
+			_ = verifhook.Hit("gc.after-condemn-commit")
 			for _, id := range external {
 				if err := store.DeletePart(ctx, nil, id); err != nil {
 					slog.Warn("post-commit part deletion failed; leaving orphan for next GC", "part_id", id.String(), "error", err)
